@@ -85,8 +85,12 @@ def finalLabel (files : List (List Line)) (labels : List (Key × Str)) (k : Key)
 /-- every value in the file is an unambiguous template (`Template.WF`: its rendering parses back to it) -/
 def WFLines (ls : List Line) : Prop := ∀ k v, Line.assign k v ∈ ls → CV.Template.WF v = true
 
-/-- every regular file of the file system is well-formed in that sense -/
-def WFFS (fs : FS) : Prop := ∀ p ls, fs p = some (.file ls) → WFLines ls
+/-- no `env_file` format is registered (the state of the library; `dotenv.RegisterFormat` is for embedding programs) -/
+def DefaultFormats (fs : FS) : Prop := ∀ n, fs.formats n = none
+
+/-- the outside world the layering specification speaks about: every regular file is well-formed in that sense and
+    files are read by the dotenv parser (no custom format registered) -/
+def WFFS (fs : FS) : Prop := (∀ p ls, fs p = some (.file ls) → WFLines ls) ∧ DefaultFormats fs
 
 /-- no file exists at path `p`: the path is absent, or one of its parents is a regular file -/
 def Missing (fs : FS) (p : Str) : Prop := fs p = none ∨ fs p = some .notdir
@@ -102,6 +106,56 @@ def labelContents (fs : FS) (paths : List Str) : List (List Line) :=
   paths.filterMap fun p => match fs p with
     | some (.file ls) => some ls
     | _ => none
+
+/-! ### which file fails
+
+`finalEnv` speaks about services whose files all load.  When they do not, the property still fixes *where* the load
+fails: at the first listed file — in `env_file` order — that is missing though required, unreadable, or contains a line
+that fails; a line fails when it is rejected by the dotenv grammar or when its template is an error of the interpolation
+grammar (`${X:?msg}` with `X` unset …) **in the lookup chain of that line**: earlier files, project environment,
+earlier lines of the same file. -/
+
+/-- what the references of a line see: the caller's lookup, then what the lines before it (`pre`) give -/
+def lineLook (look : Look) (pre : List Line) : Look := fun n => orElse (look n) (fileVal look pre n)
+
+/-- the error of the first failing line after the lines `pre`, if any -/
+def fileFailureFrom (look : Look) : List Line → List Line → Option Err
+  | _, [] => none
+  | _, .bad :: _ => some .parse
+  | pre, .bare k :: r => fileFailureFrom look (pre ++ [.bare k]) r
+  | pre, .assign k v :: r =>
+    match CV.Template.evalL (lineLook look pre) v with
+    | .error _ => some .template
+    | .ok _ => fileFailureFrom look (pre ++ [.assign k v]) r
+
+def fileFailure (look : Look) (ls : List Line) : Option Err := fileFailureFrom look [] ls
+
+/-- the error of the first failing env file after the file contents `earlier`, if any -/
+def envFailureFrom (penv : List (Key × Str)) (fs : FS) : List (List Line) → List EnvFile → Option Err
+  | _, [] => none
+  | earlier, f :: r =>
+    match fs f.path with
+    | none => if f.required then some .notFound else envFailureFrom penv fs earlier r
+    | some .notdir => if f.required then some .notFound else envFailureFrom penv fs earlier r
+    | some .dir => if f.format ≠ [] then some .format else some .read
+    | some (.file ls) =>
+      if f.format ≠ [] then some .format
+      else match fileFailure (envLook penv (filesVal penv earlier)) ls with
+        | some e => some e
+        | none => envFailureFrom penv fs (earlier ++ [ls]) r
+
+/-- the same for label files: a missing label file always fails; references see earlier label files only -/
+def labelFailureFrom (fs : FS) : List (List Line) → List Str → Option Err
+  | _, [] => none
+  | earlier, p :: r =>
+    match fs p with
+    | none => some .notFound
+    | some .notdir => some .notFound
+    | some .dir => some .read
+    | some (.file ls) =>
+      match fileFailure (labelFilesVal earlier) ls with
+      | some e => some e
+      | none => labelFailureFrom fs (earlier ++ [ls]) r
 
 /-! ### the same as a fold over ordered layers (lowest precedence first) -/
 
